@@ -116,28 +116,34 @@ structure ETx where
   id : Nat
   gc : Int                     -- GroupCount (int32)
   expire : Int
-  /-- `some es` when `tx.GetTxGroup()` returns a group (2 ≤ gc ≤ 20 and `Header` decodes as a
-  `Transactions` message): the `Expire` fields of the decoded transactions. For a member of an
+  /-- `some ms` when `tx.GetTxGroup()` returns a group (2 ≤ gc ≤ 20 and `Header` decodes as a
+  `Transactions` message): `(GroupCount, Expire)` of every decoded transaction. For a member of an
   expanded group `Header` is the 32-byte group hash, which decodes by accident for about 1 in 500
   hashes with no transactions, and for about 1 in 6.5 million hashes (`0a <len> …`) with one
   garbage transaction. -/
-  hdr : Option (List Int)
+  hdr : Option (List (Int × Int))
   deriving Repr, DecidableEq
 
-/-- `Transaction.IsExpire` (after the repair c2f0f61): the group path is taken only when `GetTxGroup`
-yields a group *with at least one transaction*; a `Header` that decodes as an empty message is
-judged by the transaction's own `Expire`. -/
+/-- `isPackedGroupOf(group, tx)` (repair 879d416): the decoded group is non-empty, has exactly
+`tx.GroupCount` members and every member carries that count. -/
+def isPackedGroupOf (ms : List (Int × Int)) (gc : Int) : Bool :=
+  !ms.isEmpty && decide ((ms.length : Int) = gc) && ms.all (fun m => decide (m.1 = gc))
+
+/-- `Transaction.IsExpire` (after the repairs c2f0f61, 879d416): the group path is taken only when
+`GetTxGroup` yields the transaction's own packed group; otherwise the transaction is judged by its
+own `Expire`. -/
 def ETx.isExpire (txHeightOn : Bool) (height blocktime : Int) (t : ETx) : Bool :=
   match t.hdr with
-  | some (e :: es) => (e :: es).any (isExpireField txHeightOn height blocktime)
-  | some [] => isExpireField txHeightOn height blocktime t.expire
+  | some ms =>
+    if isPackedGroupOf ms t.gc then ms.any (fun m => isExpireField txHeightOn height blocktime m.2)
+    else isExpireField txHeightOn height blocktime t.expire
   | none => isExpireField txHeightOn height blocktime t.expire
 
-/-- `Transaction.IsExpire` as it was before the repair (kept for the regression statement only):
-any decoded group, even an empty one, took the group path. -/
+/-- `Transaction.IsExpire` as it was before the repairs (kept for the regression statements only):
+any decoded group, even an empty or a garbage one, took the group path. -/
 def ETx.isExpireOld (txHeightOn : Bool) (height blocktime : Int) (t : ETx) : Bool :=
   match t.hdr with
-  | some es => es.any (isExpireField txHeightOn height blocktime)
+  | some ms => ms.any (fun m => isExpireField txHeightOn height blocktime m.2)
   | none => isExpireField txHeightOn height blocktime t.expire
 
 /-- base.go `isExpire` for one tx: gated by `height > 0 && blocktime > 0`. -/
